@@ -196,10 +196,12 @@ pub fn classify_eval(e: &EvalErrorKind) -> (String, String) {
     let detail = match e {
         Other(msg, _) | InternalError(msg, _) => msg.clone(),
         BlameError { label, .. } => format!("path={:?} diag={:?}", label.path, label.diagnostics.iter().map(|d| d.message.clone()).collect::<Vec<_>>()),
-        _ => {
-            let s = format!("{e:?}");
-            s.chars().take(200).collect()
-        }
+        IllegalPolymorphicTailAccess { action, .. } => format!("{action:?}"),
+        FieldMissing { id, .. } => format!("field {id}"),
+        UnboundIdentifier(id, _) => format!("ident {id}"),
+        MissingFieldDef { id, .. } => format!("field {id}"),
+        // never Debug-print values or labels: they may be cyclic thunk graphs
+        _ => String::new(),
     };
     (class, detail)
 }
